@@ -732,6 +732,13 @@ class Sim:
         if self.pool._timeout_handler is None or self.cb_thread is not None \
                 or self.in_scan or self.in_join:
             return
+        saved = CLOCK.now
+        CLOCK.now += mj.opts['cbscan']
+        hit = self.scan_would_hit_imap_owner()
+        CLOCK.now = saved
+        if hit:
+            self.exclude('limit-kill-of-imap-part-owner')
+            return
         CLOCK.now += mj.opts['cbscan']
         self.labels.add('scan_during_callback')
         self.cb_job = mj
@@ -1055,6 +1062,8 @@ class Sim:
         if pool._timeout_handler is None or \
                 pool._timeout_handler._state != bp.RUN:
             return 'noop'
+        if self.scan_would_hit_imap_owner():
+            return self.exclude('limit-kill-of-imap-part-owner')
         self.obey_term = obey
         self.term_status = status
         if CLOCK.hook is None:
@@ -1113,6 +1122,27 @@ class Sim:
             return self.op_scan(obey)
         finally:
             CLOCK.hook = None
+
+    def scan_would_hit_imap_owner(self):
+        """would a scan right now kill a worker that (having finished the job
+        whose limit expired, its result still in flight) is running a part of an
+        imap?  That is the zone of the open findings D4/D13."""
+        if self.allowed('imap-loss'):
+            return False
+        for mj in self.jobs:
+            if mj.kind != 'apply' or mj.handle is None or mj.handle.ready():
+                continue
+            part = mj.parts.get(None)
+            lim = mj.opts.get('hard') or self.config.get('timeout')
+            if not (lim and part and part.ack_delivered and
+                    CLOCK.now >= part.ack_time + lim):
+                continue
+            proc = self.by_pid.get(part.owner)
+            if proc is not None and proc.alive and proc.current is not None:
+                cur = self.by_jobid.get(proc.current[0])
+                if cur is not None and cur.kind in ('imap', 'imap_unordered'):
+                    return True
+        return False
 
     def op_adv(self, dt):
         CLOCK.now += dt
